@@ -139,7 +139,8 @@ CHECKS = {
              "the emitted template is parsed and sort-checked against the RzIL typing rules with each operand text typed by its own "
              "contract, and must have sort(node); callbacks establish WF(node) and the state clauses (single width per local, "
              "register write / store / jump target / ret_val widths). Both BRANCH/ITE arms and loop bodies are sub-terms, so every "
-             "path is covered. Refuted instances replay natively: known findings F4 F5 F5b F5c F6 F7 F21 F21b F21c F22 F23.",
+             "path is covered. Refuted instances replay natively: known findings F4 F5 F5b F5c F6 F7 F21 F21b F21c F22 F23."
+             " Postfix ++/-- keep the operand's width (INC/DEC(v, n) needs n = width of v) for all eight types.",
         design_ref="DESIGN.md section 3, C10",
         note=TRUST + "Sort rules transcribed in spec/rzil.py (T-RZIL), plugin macro result sorts (T-PLUGIN), composition over depth (T-IND).",
         technique="contract-based deductive verification: emission contracts with a sort checker over symbolic templates (ground + "
@@ -150,7 +151,8 @@ CHECKS = {
              "otherwise for every read history (symbolic counters); every emitting function embeds each operand text exactly once "
              "(atom linearity on symbolic templates); PureExec/Hybrid declare at most once; the emit loops append each non-empty "
              "il_init_var() exactly once for holder tables of ANY size (fold invariants); callbacks consume every operand they "
-             "receive. The global one-raw-use conclusion follows by the linearity lemma (metatheory). Known finding F14.",
+             "receive. The global one-raw-use conclusion follows by the linearity lemma (metatheory). Known finding F14."
+             " Argument lists of sub-routine calls: value arguments are read exactly once; a borrowed pure parameter passed on goes through il_read (counter advances, first read raw, later reads DUP) - contracts shared with C08.",
         design_ref="DESIGN.md section 3, C12",
         note=TRUST + "Linearity lemma and induction over the tree are metatheory (T-IND); emit_stmt_blocks statement lists are enumerated "
              "shapes (bounded).",
@@ -163,7 +165,8 @@ CHECKS = {
              "return;, while/do/switch, unknown functions, array/member/pointer access, * and &; statement-list consumers "
              "(Sequence.__init__ for lists of ANY length by fold invariant, final instruction sequence) raise on the value of a "
              "rule without handler (labels, comma expressions); Tree-injection: each of 29 callbacks, given an unhandled value in "
-             "any child position, raises or keeps it reachable in its result so that a later consumer/emission rejects it.",
+             "any child position, raises or keeps it reachable in its result so that a later consumer/emission rejects it."
+             " Statement lists of if / else / for bodies including blocks nested in blocks: every statement reaches the emitted sequence, in order (statement-list clauses shared with C05).",
         design_ref="DESIGN.md section 3, C15",
         note=TRUST + "lark Transformer dispatch (T-LARK); a Tree still contained in a result is rejected by emission (T-IND); value "
              "placeholders with pending side effects are C06's.",
@@ -215,7 +218,8 @@ CHECKS = {
              "immediate letter, every load/store width and signedness, jump target, pc. For each spelling the real callback and "
              "the node's il_init_var()/il_read()/il_write are executed and compared with the architectural table: operand slot "
              "letter, register number, class enum, .new flag, width, signedness; READ_REG/WRITE_REG(bundle, <that operand>, v); "
-             "LOADW width/address, STOREW, the access signedness drives widening; the access state machine for all states.",
+             "LOADW width/address, STOREW, the access signedness drives widening; the access state machine for all states."
+             " The binding does not depend on earlier uses of the same letter with the other .new-ness (history instances); the jump target is recorded at 32 bit with the C value (conversion-context contract shared with C03).",
         design_ref="DESIGN.md section 3, C07",
         note=TRUST + "Architectural table spec/hexagon.py (T-HEX) and plugin macro contracts (T-PLUGIN); alias names sampled (the name "
              "enters the text only through upper()/lower()); explicit numbers sampled in the quick tier, all 20x21 in thorough; "
@@ -231,7 +235,8 @@ CHECKS = {
              "in operand order, removing them (exactly once); every effect-producing callback routes through it; for-loop steps "
              "run after the body; statement-expression arms of ?: are guarded on the right side; dead arms lose their side "
              "effect. Top-level placement, ?: arms with ++/calls and && || short-circuit are refuted with source-level replays: "
-             "known findings F8 F9 F9b.",
+             "known findings F8 F9 F9b."
+             " Statement-expressions in both arms are each guarded on their own side; two unused value operations keep their source order also where temporary names do not sort like their numbers (9/10, 99/100); x++ / x-- keep the operand's type for all eight integer types.",
         design_ref="DESIGN.md section 3, C06",
         note=TRUST + "SEQN / SETL evaluation order (T-RZIL); composition over nesting (T-IND); user variables are not named h_tmp<digits>.",
         technique="contract-based deductive verification with ghost state: structural postconditions over the pending table under "
@@ -246,7 +251,8 @@ CHECKS = {
              "tables of any size (fold invariants) and callbacks number created nodes after their operands (declare before use); "
              "final `return instruction_sequence;` / `return NOP();`; string contracts over symbolic code: mention of hi/pkt => "
              "needs_hi/needs_pkt and => declaration in sub-routine bodies; one getter name/declaration per part; getter names unique "
-             "over all 2181 bundled names (ground). Operand identifier clashes are a BOUNDED clause (finite spelling set).",
+             "over all 2181 bundled names (ground). Operand identifier clashes are a BOUNDED clause (finite spelling set)."
+             " For every history of the compiler instance: the holder tables (registered operands, pending side effects, immediate copies) are empty before each text (reset / entry-point contracts shared with C14), so no stale, undeclared name can enter a later text.",
         design_ref="DESIGN.md section 3, C11",
         note=TRUST + "A-NAMES (user identifiers do not collide with internal base names) is the one assumption left about add_op; "
              "regex semantics T-RE; bottom-up callback order T-LARK.",
@@ -259,7 +265,8 @@ CHECKS = {
              "denote the same value for every read history (variable or DUP of it, symbolic counters); get_exec_op_list returns "
              "exactly the reachable executable pures; every node a callback creates is registered; a quantified coverage lemma "
              "(z3, uninterpreted node sort) concludes that both layouts initialise every node the final sequence reaches; only "
-             "fbody/emit_final_seq_return read code_format (package scan), so IR and attributes are layout independent.",
+             "fbody/emit_final_seq_return read code_format (package scan), so IR and attributes are layout independent."
+             " Emission frame: every text emitter under contract changes nothing but read / declaration counters, so the text of a node cannot depend on the emission order in which the layouts differ; registration obligations cover all ten compound assignment operators.",
         design_ref="DESIGN.md section 3, C16",
         note=TRUST + "den(DUP t) = den t and irrelevance of initialiser order under declare-before-use (T-RZIL, C11); the conclusion "
              "'equal den of instruction_sequence' is a metatheoretic composition (T-IND) of the discharged clauses.",
